@@ -7,6 +7,7 @@ CONSTANTS
   MaxByte = 0
   MaxMem = 0
   Large = {}
+  Huge = {}
   NRand = 0
   FullRun = 0
 INIT SelfInit
